@@ -25,6 +25,12 @@ class RegexStackOverflow(Exception):
     pass
 
 
+class _StepLimitExceeded(Exception):
+    """Internal: the step budget of one match attempt is used up."""
+
+    pass
+
+
 class MatchResult:
     """Result of a successful regex match."""
 
@@ -136,18 +142,45 @@ class RegexVM:
         self, string: str, start_pos: int, anchored: bool
     ) -> Optional[MatchResult]:
         """
-        Execute bytecode against string.
+        Execute bytecode against string (one match attempt starting at start_pos).
+        """
+        self._steps = 0
+        captures = [[-1, -1] for _ in range(self.capture_count)]
+        try:
+            result = self._run(string, start_pos, 0, captures, None)
+        except _StepLimitExceeded:
+            return None  # Fail gracefully on ReDoS
+        if result is None:
+            return None
+        captures, _ = result
+        groups = []
+        for start, end in captures:
+            if start == -1 or end == -1:
+                groups.append(None)
+            else:
+                groups.append(string[start:end])
+        return MatchResult(groups, captures[0][0], string)
 
-        This is the main execution loop.
+    def _run(
+        self,
+        string: str,
+        start_pos: int,
+        start_pc: int,
+        captures: List[List[int]],
+        lookbehind_end: Optional[int],
+    ) -> Optional[Tuple[List[List[int]], int]]:
+        """
+        The matcher loop.  Runs the bytecode from start_pc at start_pos until MATCH
+        (whole pattern) or the end marker of the lookaround body being evaluated.
+        Returns (captures, end position) on success, None on failure.
+
+        Lookahead and lookbehind bodies are run by this same loop (every opcode
+        means the same inside an assertion as outside), and all loops of one
+        attempt share the step budget and the deadline poll.
         """
         # Execution state
-        pc = 0  # Program counter
+        pc = start_pc  # Program counter
         sp = start_pos  # String position
-        step_count = 0
-
-        # Capture positions: list of (start, end) for each group
-        # -1 means unset
-        captures = [[-1, -1] for _ in range(self.capture_count)]
 
         # Registers for position tracking (ReDoS protection)
         registers: List[int] = []
@@ -155,18 +188,23 @@ class RegexVM:
         # Backtrack stack: list of (pc, sp, captures_snapshot, registers_snapshot)
         stack: List[Tuple] = []
 
+        if start_pc == 0:
+            loop_name = "main"
+        else:
+            loop_name = "lookahead" if lookbehind_end is None else "lookbehind"
+
         while True:
             if _verif.ENABLED and _verif.on_regex_step:
-                _verif.on_regex_step(self, "main", pc, sp, len(stack))
+                _verif.on_regex_step(self, loop_name, pc, sp, len(stack))
             # Check limits periodically
-            step_count += 1
-            if step_count % self.poll_interval == 0:
+            self._steps += 1
+            if self._steps % self.poll_interval == 0:
                 if self.poll_callback and self.poll_callback():
                     raise RegexTimeoutError("Regex execution timed out")
 
-            # Hard step limit for ReDoS protection
-            if step_count > self.step_limit:
-                return None  # Fail gracefully on ReDoS
+            # Hard step limit for ReDoS protection (lookaround bodies included)
+            if self._steps > self.step_limit:
+                raise _StepLimitExceeded()
 
             # Stack overflow protection
             if len(stack) > self.stack_limit:
@@ -488,89 +526,63 @@ class RegexVM:
 
             elif opcode == Op.LOOKAHEAD:
                 end_offset = instr[1]
-                # Save current state and try to match lookahead
-                saved_sp = sp
-                saved_captures = [c.copy() for c in captures]
-
-                # Create sub-execution for lookahead, passing current captures
-                la_captures = self._execute_lookahead(
-                    string, sp, pc + 1, end_offset, captures
+                # Run the body; on success keep its captures, not its position
+                result = self._run(
+                    string, sp, pc + 1, [c.copy() for c in captures], None
                 )
-
-                if la_captures is not None:
-                    # Lookahead succeeded - restore position but keep captures from lookahead
-                    sp = saved_sp
-                    captures = la_captures  # Use captures from lookahead
+                if result is not None:
+                    captures = result[0]
                     pc = end_offset
                 else:
-                    # Lookahead failed
                     if not stack:
                         return None
                     pc, sp, captures, registers = self._backtrack(stack)
 
             elif opcode == Op.LOOKAHEAD_NEG:
                 end_offset = instr[1]
-                saved_sp = sp
-                saved_captures = [c.copy() for c in captures]
-
-                la_captures = self._execute_lookahead(
-                    string, sp, pc + 1, end_offset, captures
+                result = self._run(
+                    string, sp, pc + 1, [c.copy() for c in captures], None
                 )
-
-                if la_captures is None:
-                    # Negative lookahead succeeded (inner didn't match)
-                    sp = saved_sp
-                    captures = saved_captures  # Keep original captures
+                if result is None:
+                    # Negative lookahead succeeded (body didn't match)
                     pc = end_offset
                 else:
-                    # Negative lookahead failed (inner matched)
                     if not stack:
                         return None
                     pc, sp, captures, registers = self._backtrack(stack)
 
             elif opcode == Op.LOOKAHEAD_END:
-                # Successfully matched lookahead content
-                return MatchResult([], 0, "")  # Special marker
+                # End of the lookahead body being evaluated
+                return captures, sp
 
             elif opcode == Op.LOOKBEHIND:
                 end_offset = instr[1]
-                saved_sp = sp
-                saved_captures = [c.copy() for c in captures]
-
-                # Try lookbehind - match pattern ending at current position
-                lb_result = self._execute_lookbehind(string, sp, pc + 1, end_offset)
-
-                if lb_result:
-                    # Lookbehind succeeded - restore position and continue after
-                    sp = saved_sp
-                    captures = saved_captures
+                result = self._run_lookbehind(string, sp, pc + 1, captures)
+                if result is not None:
+                    captures = result[0]
                     pc = end_offset
                 else:
-                    # Lookbehind failed
                     if not stack:
                         return None
                     pc, sp, captures, registers = self._backtrack(stack)
 
             elif opcode == Op.LOOKBEHIND_NEG:
                 end_offset = instr[1]
-                saved_sp = sp
-                saved_captures = [c.copy() for c in captures]
-
-                lb_result = self._execute_lookbehind(string, sp, pc + 1, end_offset)
-
-                if not lb_result:
-                    # Negative lookbehind succeeded (inner didn't match)
-                    sp = saved_sp
-                    captures = saved_captures
+                result = self._run_lookbehind(string, sp, pc + 1, captures)
+                if result is None:
                     pc = end_offset
                 else:
-                    # Negative lookbehind failed (inner matched)
                     if not stack:
                         return None
                     pc, sp, captures, registers = self._backtrack(stack)
 
             elif opcode == Op.LOOKBEHIND_END:
-                return MatchResult([], 0, "")  # Special marker
+                # The body must end exactly where the assertion stands
+                if sp == lookbehind_end:
+                    return captures, sp
+                if not stack:
+                    return None
+                pc, sp, captures, registers = self._backtrack(stack)
 
             elif opcode == Op.SET_POS:
                 reg_idx = instr[1]
@@ -604,13 +616,7 @@ class RegexVM:
 
             elif opcode == Op.MATCH:
                 # Successful match!
-                groups = []
-                for start, end in captures:
-                    if start == -1 or end == -1:
-                        groups.append(None)
-                    else:
-                        groups.append(string[start:end])
-                return MatchResult(groups, captures[0][0], string)
+                return captures, sp
 
             else:
                 raise RuntimeError(f"Unknown opcode: {opcode}")
@@ -629,237 +635,15 @@ class RegexVM:
         after = pos < len(string) and is_word_char(string[pos])
         return before != after
 
-    def _execute_lookahead(
-        self,
-        string: str,
-        start_pos: int,
-        start_pc: int,
-        end_pc: int,
-        input_captures: List[List[int]],
-    ) -> Optional[List[List[int]]]:
-        """Execute bytecode for lookahead assertion.
-
-        Returns the captures list if lookahead succeeds, None if it fails.
-        This preserves captures made inside the lookahead.
-        """
-        # Start with a copy of input captures to preserve outer captures
-        pc = start_pc
-        sp = start_pos
-        captures = [c.copy() for c in input_captures]
-        registers: List[int] = []
-        stack: List[Tuple] = []
-        step_count = 0
-
-        while True:
-            if _verif.ENABLED and _verif.on_regex_step:
-                _verif.on_regex_step(self, "lookahead", pc, sp, len(stack))
-            step_count += 1
-            if step_count % self.poll_interval == 0:
-                if self.poll_callback and self.poll_callback():
-                    raise RegexTimeoutError("Regex execution timed out")
-
-            if len(stack) > self.stack_limit:
-                raise RegexStackOverflow("Regex stack overflow")
-
-            if pc >= end_pc:
-                return None
-
-            instr = self.bytecode[pc]
-            opcode = instr[0]
-
-            if opcode == Op.LOOKAHEAD_END:
-                return captures  # Return captures made inside lookahead
-
-            # Handle SAVE_START/SAVE_END to capture groups inside lookahead
-            if opcode == Op.SAVE_START:
-                group_idx = instr[1]
-                if group_idx < len(captures):
-                    captures[group_idx][0] = sp
-                pc += 1
-
-            elif opcode == Op.SAVE_END:
-                group_idx = instr[1]
-                if group_idx < len(captures):
-                    captures[group_idx][1] = sp
-                pc += 1
-
-            elif opcode == Op.CHAR:
-                char_code = instr[1]
-                if sp >= len(string):
-                    if not stack:
-                        return None
-                    pc, sp, captures, registers = stack.pop()
-                    continue
-                ch = string[sp]
-                if self.ignorecase:
-                    match = ord(ch.lower()) == char_code or ord(ch.upper()) == char_code
-                else:
-                    match = ord(ch) == char_code
-                if match:
-                    sp += 1
-                    pc += 1
-                else:
-                    if not stack:
-                        return None
-                    pc, sp, captures, registers = stack.pop()
-
-            elif opcode == Op.DOT:
-                if sp >= len(string) or string[sp] == "\n":
-                    if not stack:
-                        return None
-                    pc, sp, captures, registers = stack.pop()
-                    continue
-                sp += 1
-                pc += 1
-
-            elif opcode == Op.SPLIT_FIRST:
-                alt_pc = instr[1]
-                stack.append(
-                    (alt_pc, sp, [c.copy() for c in captures], registers.copy())
-                )
-                pc += 1
-
-            elif opcode == Op.SPLIT_NEXT:
-                alt_pc = instr[1]
-                stack.append(
-                    (pc + 1, sp, [c.copy() for c in captures], registers.copy())
-                )
-                pc = alt_pc
-
-            elif opcode == Op.JUMP:
-                pc = instr[1]
-
-            elif opcode == Op.MATCH:
-                return captures
-
-            else:
-                # Handle other opcodes similarly to main loop
-                pc += 1
-
-    def _execute_lookbehind(
-        self, string: str, end_pos: int, start_pc: int, end_pc: int
-    ) -> bool:
-        """Execute bytecode for lookbehind assertion.
-
-        Lookbehind matches if the pattern matches text ending at end_pos.
-        We try all possible start positions backwards from end_pos.
-        """
-        # Try all possible starting positions from 0 to end_pos
-        # We want the pattern to match and end exactly at end_pos
+    def _run_lookbehind(
+        self, string: str, end_pos: int, start_pc: int, captures: List[List[int]]
+    ) -> Optional[Tuple[List[List[int]], int]]:
+        """Lookbehind: the body must match some text ending exactly at end_pos.
+        Try the possible start positions, nearest first."""
         for start_pos in range(end_pos, -1, -1):
-            result = self._try_lookbehind_at(
-                string, start_pos, end_pos, start_pc, end_pc
+            result = self._run(
+                string, start_pos, start_pc, [c.copy() for c in captures], end_pos
             )
-            if result:
-                return True
-        return False
-
-    def _try_lookbehind_at(
-        self, string: str, start_pos: int, end_pos: int, start_pc: int, end_pc: int
-    ) -> bool:
-        """Try to match lookbehind pattern from start_pos, checking it ends at end_pos."""
-        pc = start_pc
-        sp = start_pos
-        captures = [[-1, -1] for _ in range(self.capture_count)]
-        registers: List[int] = []
-        stack: List[Tuple] = []
-        step_count = 0
-
-        while True:
-            if _verif.ENABLED and _verif.on_regex_step:
-                _verif.on_regex_step(self, "lookbehind", pc, sp, len(stack))
-            step_count += 1
-            if step_count % self.poll_interval == 0:
-                if self.poll_callback and self.poll_callback():
-                    raise RegexTimeoutError("Regex execution timed out")
-
-            if len(stack) > self.stack_limit:
-                raise RegexStackOverflow("Regex stack overflow")
-
-            if pc >= end_pc:
-                return False
-
-            instr = self.bytecode[pc]
-            opcode = instr[0]
-
-            if opcode == Op.LOOKBEHIND_END:
-                # Check if we ended exactly at the target position
-                return sp == end_pos
-
-            if opcode == Op.CHAR:
-                char_code = instr[1]
-                if sp >= len(string):
-                    if not stack:
-                        return False
-                    pc, sp, captures, registers = stack.pop()
-                    continue
-                ch = string[sp]
-                if self.ignorecase:
-                    match = ord(ch.lower()) == char_code or ord(ch.upper()) == char_code
-                else:
-                    match = ord(ch) == char_code
-                if match:
-                    sp += 1
-                    pc += 1
-                else:
-                    if not stack:
-                        return False
-                    pc, sp, captures, registers = stack.pop()
-
-            elif opcode == Op.DOT:
-                if sp >= len(string) or string[sp] == "\n":
-                    if not stack:
-                        return False
-                    pc, sp, captures, registers = stack.pop()
-                    continue
-                sp += 1
-                pc += 1
-
-            elif opcode == Op.DIGIT:
-                if sp >= len(string) or not string[sp].isdigit():
-                    if not stack:
-                        return False
-                    pc, sp, captures, registers = stack.pop()
-                    continue
-                sp += 1
-                pc += 1
-
-            elif opcode == Op.WORD:
-                if sp >= len(string):
-                    if not stack:
-                        return False
-                    pc, sp, captures, registers = stack.pop()
-                    continue
-                ch = string[sp]
-                if ch.isalnum() or ch == "_":
-                    sp += 1
-                    pc += 1
-                else:
-                    if not stack:
-                        return False
-                    pc, sp, captures, registers = stack.pop()
-
-            elif opcode == Op.SPLIT_FIRST:
-                alt_pc = instr[1]
-                stack.append(
-                    (alt_pc, sp, [c.copy() for c in captures], registers.copy())
-                )
-                pc += 1
-
-            elif opcode == Op.SPLIT_NEXT:
-                alt_pc = instr[1]
-                stack.append(
-                    (pc + 1, sp, [c.copy() for c in captures], registers.copy())
-                )
-                pc = alt_pc
-
-            elif opcode == Op.JUMP:
-                pc = instr[1]
-
-            elif opcode == Op.MATCH:
-                # Check if we ended exactly at the target position
-                return sp == end_pos
-
-            else:
-                # Handle other opcodes - advance pc
-                pc += 1
+            if result is not None:
+                return result
+        return None
